@@ -3,6 +3,7 @@
 package gnet
 
 import (
+	"os"
 	"context"
 	"crypto/sha256"
 	"encoding/hex"
@@ -49,6 +50,7 @@ type Model struct {
 	contract  transaction.Transaction
 	seen      map[string]map[[32]byte]bool // node -> items its flashback has seen
 	sendViol  []common.Violation
+	initViol  []common.Violation // violations of the sends made while the origin created the items
 	sends     map[string]int
 	counters  map[string]int
 	injected  bool // "then-second": the second item has been proposed at the origin
@@ -109,6 +111,7 @@ func (m *Model) Init() {
 		m.seen[n] = map[[32]byte]bool{}
 	}
 	m.sendViol = nil
+	m.initViol = nil
 	m.sends = map[string]int{}
 	m.items = nil
 	m.advDone = map[int]bool{}
@@ -127,6 +130,8 @@ func (m *Model) Init() {
 	vsched.Settle()
 	R, A, B := world.Cast("R"), world.Cast("A"), world.Cast("B")
 	origin := m.byName[m.Cfg.Origin]
+	// burst: the origin's clients propose back to back, the node's background loops get to run only afterwards
+	burst := false
 	propose := func(t transaction.Transaction) {
 		pt, err := world.TrxToProto(t)
 		if err != nil {
@@ -135,18 +140,25 @@ func (m *Model) Init() {
 		if _, err := origin.Notary.Propose(ctx, pt); err != nil {
 			panic("gnet: origin propose failed: " + err.Error())
 		}
-		vsched.Settle()
+		if !burst {
+			vsched.Settle()
+		}
 	}
 	switch m.Cfg.Items {
-	case "vertex", "two-vertices", "then-second", "pair-then-third":
+	case "vertex", "two-vertices", "two-vertices-burst", "then-second", "pair-then-third":
 		m.itemKind = "vertex"
+		burst = m.Cfg.Items == "two-vertices-burst"
 		t1 := world.MakeTx(R, A.Addr, "g1", nil, spice.Melange{Currency: 1}, 9101)
 		m.W.Ref.LabelTx("g1", t1)
 		propose(t1)
-		if m.Cfg.Items == "two-vertices" || m.Cfg.Items == "pair-then-third" {
+		if m.Cfg.Items == "two-vertices" || m.Cfg.Items == "two-vertices-burst" || m.Cfg.Items == "pair-then-third" {
 			t2 := world.MakeTx(R, B.Addr, "g2", nil, spice.Melange{Currency: 1}, 9102)
 			m.W.Ref.LabelTx("g2", t2)
 			propose(t2)
+		}
+		if burst {
+			burst = false
+			vsched.Settle()
 		}
 		s := origin.Book.VerifSnapshot()
 		for _, v := range s.Vertices {
@@ -169,6 +181,13 @@ func (m *Model) Init() {
 	}
 	for _, it := range m.items {
 		m.seen[m.Cfg.Origin][it] = true
+	}
+	// what the origin sent while the items were created is judged with the first event of every path
+	m.initViol = append([]common.Violation(nil), m.sendViol...)
+	if os.Getenv("GNET_DEBUG") != "" {
+		for _, msg := range m.Net.Bag {
+			fmt.Fprintf(os.Stderr, "gnet init: msg %d %s>%s %s viol=%d\n", msg.ID, msg.From, msg.To, m.itemName(msg.Item()), len(m.initViol))
+		}
 	}
 }
 
@@ -658,6 +677,9 @@ func (m *Model) honestReach() map[string]bool {
 // Check evaluates the oracles for the last transition.
 func (m *Model) Check(e, res string) []common.Violation {
 	out := append([]common.Violation(nil), m.sendViol...)
+	if m.evCount == 1 {
+		out = append(out, m.initViol...)
+	}
 	m.counters["transitions"]++
 	p := strings.Split(e, ":")
 	// per-delivery decision oracle (C12.decision, also meaningful without an adversary)
